@@ -357,6 +357,31 @@ func skel(repo string) {
 		}
 		fmt.Fprintf(&out, "\n(* %s *)\nDefinition sk_%s : sk :=\n  %s.\n", filepath.Base(fset.Position(fd.Pos()).Filename), strings.ReplaceAll(t, ".", "_"), body)
 	}
+	// ---- polls of the close channel in functions the skeletons do not cover ----
+	{
+		covered := map[string]bool{"isClosed": true}
+		for _, t := range skTargets {
+			covered[t] = true
+		}
+		var names []string
+		for name, fd := range decls {
+			if covered[name] || fd.Body == nil {
+				continue
+			}
+			n := 0
+			ast.Inspect(fd.Body, func(x ast.Node) bool {
+				if ce, ok := x.(*ast.CallExpr); ok && calleeName(ce.Fun) == "isClosed" {
+					n++
+				}
+				return true
+			})
+			if n > 0 {
+				names = append(names, name)
+			}
+		}
+		sort.Strings(names)
+		fmt.Fprintf(&out, "\n(* functions outside the skeleton targets that poll the close channel: %v *)\nDefinition polls_elsewhere : N := %d.\n", names, len(names))
+	}
 	// ---- argument texts of the calls that fix a postings list's chunk size ----
 	// (writer and reader must derive it from the same quantities: chunk mode, the FULL cardinality of
 	// the list as written, the segment's document count)
